@@ -240,7 +240,7 @@ claim("C10",
       "member_statements (header address = class start; END = MAX(END, seg end) after the member), class_sizes (one SIZE = END - START per opened "
       "class, none for the others). Image theorems: image_class_prologue (start symbol = fixed_vram | value of fixed_symbol | largest end symbol among "
       "the followed classes, end symbol = 0), image_member_starts_at_class_start, image_class_end_accumulates (END = max(END, member VRAM end)). Known "
-      "finding KF-C10-followed-member-listed-later: a member of a followed class listed after the follower's first member is not seen by the follower. Props/C10Final.lean, final_class_fixed_vram: in the image Ld.link returns for the whole ordinary script (Props/C10Partial.lean: and for the main script of partial mode) every emitted member of a class with fixed_vram v is recorded at v and the class start symbol is v, first member or later (class_start_kept carries the value through the fold over the segments; the symbol must be assigned once). Props/C10Symbol.lean, final_class_fixed_symbol: the same for a class with fixed_symbol S (every emitted member starts at the value the image holds for S). Props/C10End.lean, final_class_end: in the image of the whole script the class end symbol holds a number E, every emitted member's VRAM end v satisfies v <= E, and E is 0 or one of these v (the class ends where its last-ending member ends), for every class with an emitted member, when the script assigns the class end symbol as often as the writer does (once in the prologue, once per emitted member: endAssigns / class_end_lower). Props/C10Src.lean: MAX(s, s, other), the class literals and `end - start` are format! of the source's templates." + IMG,
+      "finding KF-C10-followed-member-listed-later: a member of a followed class listed after the follower's first member is not seen by the follower. Props/C10Final.lean, final_class_fixed_vram: in the image Ld.link returns for the whole ordinary script (Props/C10Partial.lean: and for the main script of partial mode) every emitted member of a class with fixed_vram v is recorded at v and the class start symbol is v, first member or later (class_start_kept carries the value through the fold over the segments; the symbol must be assigned once). Props/C10Symbol.lean, final_class_fixed_symbol: the same for a class with fixed_symbol S (every emitted member starts at the value the image holds for S). Props/C10End.lean, final_class_end: in the image of the whole script the class end symbol holds a number E, every emitted member's VRAM end v satisfies v <= E, and E is 0 or one of these v (the class ends where its last-ending member ends), for every class with an emitted member, when the script assigns the class end symbol as often as the writer does (once in the prologue, once per emitted member: endAssigns / class_end_lower). Props/C10EndCore.lean / C10SymbolCore.lean: both also for the main script of partial mode. Props/C10Size.lean, final_class_size: for a class with fixed_vram v and an emitted member the image holds v in the start symbol, E in the end symbol and E - v (32-bit) in the size symbol. Props/C10Src.lean: MAX(s, s, other), the class literals and `end - start` are format! of the source's templates." + IMG,
       "Lean 4 proofs of the class statements + real-link oracle for values", "DESIGN.md §8 C10")
 claim("C11",
       "Lean theorems (Props/C11.lean): one_script_per_emitted_segment, same_statements (the emitter does not read the two flags that distinguish a "
